@@ -80,11 +80,6 @@ contract(F, "DefaultQueue.add", props=["C16"], aliases=AL,
 _NEXT_MODS = ["*self.working", "all:Counter(Int)", "*self.staging", "*self.ignore", "*self._inferral_expanded",
               "*self._initial_expanded", "*self.queue_sizes", "all:Deque(Int)", "self.next_level"]
 
-contract(F, "DefaultQueue._populate_staging", props=["C16"], verify=False, aliases=AL,
-         trusted_reason="only its frame is used by __next__ (it may change any queue state and may signal exhaustion); "
-                        "its scheduling behaviour is covered by the bounded stand-in",
-         params={"self": Q}, may_raise=["StopIteration"], modifies=_NEXT_MODS)
-
 contract(F, "DefaultQueue.__next__", props=["C16"], aliases=AL,
          params={"self": Q}, returns=WorkPacket, may_raise=["StopIteration"],
          ensures=["not (result.label in self.ignore)"],
@@ -116,3 +111,31 @@ contract(F, "DefaultQueue._iter_helper_working", props=["C16"], aliases=AL, yiel
              "not yielded[base + j].inferral and len(yielded[base + j].strategies) == 1 and "
              "yielded[base + j].strategies[0] == self.initial_strategies[j]))"], modifies=[])},
          modifies=["*self.working", "*self.next_level", "*self._inferral_expanded", "*self._initial_expanded"])
+
+# ---- _populate_staging: on return there is something to hand out (otherwise StopIteration was raised by the level change)
+for _nm in ("_change_level", "_iter_helper_curr"):
+    pass
+contract(F, "DefaultQueue._change_level", props=["C16"], verify=False, aliases=AL,
+         trusted_reason="level change (sorted by counts, lambda key): only its frame and its StopIteration are used here; its "
+                        "scheduling behaviour is covered by the bounded stand-in c16",
+         params={"self": Q},
+         # its three leading asserts, as preconditions (obligations of the caller)
+         requires=["len(self.staging) == 0", "len(self.working) == 0",
+                   "forall(lambda i: implies(0 <= i and i < len(self.curr_level), len(self.curr_level[i]) == 0))"],
+         # on normal return the new level is not empty (otherwise StopIteration); working is not touched
+         ensures=["exists(lambda i: 0 <= i and i < len(self.curr_level) and len(self.curr_level[i]) > 0)",
+                  "len(self.working) == old(len(self.working))", "wf(self)"],
+         may_raise=["StopIteration"], modifies=[m for m in _NEXT_MODS if m != "*self.working"])
+contract(F, "DefaultQueue._iter_helper_curr", props=["C16"], verify=False, aliases=AL, yield_seq=True,
+         trusted_reason="next(generator with side effects) over the current level: only its frame is used here (bounded c16)",
+         params={"self": Q}, returns=Seq(WorkPacket),
+         requires=["exists(lambda i: 0 <= i and i < len(self.curr_level) and len(self.curr_level[i]) > 0)"],
+         ensures=["len(self.working) == old(len(self.working))", "wf(self)"],
+         may_raise=["StopIteration"], modifies=[m for m in _NEXT_MODS if m != "*self.working"])
+contract(F, "DefaultQueue._populate_staging", props=["C16"], aliases=AL,
+         params={"self": Q}, may_raise=["StopIteration"],
+         ensures=["len(self.staging) > 0"],
+         loops={0: dict(invariant=["wf(self)"], modifies=_NEXT_MODS),
+                1: dict(invariant=["wf(self)", "len(self.staging) > 0 or len(self.working) == 0"], modifies=_NEXT_MODS)},
+         modifies=_NEXT_MODS,
+         notes="returns only with a non-empty staging area; exhaustion is signalled by StopIteration (termination not proved)")
